@@ -93,7 +93,12 @@ ParseEvent(r) ==
     given |-> ParseReq(r.req), proc |-> proc,
     sid |-> IF "sid" \in DOMAIN r THEN r.sid ELSE 0,
     ret |-> r.ret, out |-> ParseOut(r.out),
-    dead |-> ToSet(r.post.dead), obsOK |-> ObsOK(r.post) ]
+    dead |-> ToSet(r.post.dead), obsOK |-> ObsOK(r.post),
+    \* paired runs (C17): the same history under no flag
+    paired |-> "fl" \in DOMAIN r,
+    fl     |-> IF "fl" \in DOMAIN r THEN ToSet(r.fl) ELSE {},
+    out0   |-> IF "fl" \in DOMAIN r THEN ParseOut(r.out0) ELSE NoOut,
+    same0  |-> IF "fl" \in DOMAIN r THEN (r.post = r.post0 /\ r.ret = r.ret0) ELSE TRUE ]
 
 (***************************************************************************)
 (* Behaviour                                                               *)
